@@ -495,6 +495,7 @@ where
     pub fn clear(&mut self) {
         self.bulk.clear();
         self.state = RangeCoderState::default();
+        self.situation = EncoderSituation::Normal;
     }
 
     /// Assembles the current compressed data into a single slice.
